@@ -91,7 +91,7 @@ def fold_buffers(ci: ClassInfo, method: str, atoms: Dict[str, bool], attrs: Dict
     return out
 
 
-def run_buffers(fi: FuncInfo, atoms: Dict[str, bool], attrs: Dict[str, object]) -> Dict[str, object]:
+def run_buffers(fi: FuncInfo, atoms: Dict[str, bool], attrs: Dict[str, object], funcs=None, consts=None, max_steps: int = 200000) -> Dict[str, object]:
     """Buffers registered by a constructor-like method, from running its body (own arithmetic): `self.register_buffer(name,
     expr)` is read as the binding of `name`, `super().__init__(...)` is skipped, parameters get their defaults unless the
     configuration names them."""
@@ -122,9 +122,11 @@ def run_buffers(fi: FuncInfo, atoms: Dict[str, bool], attrs: Dict[str, object]) 
             names[k_] = v_
     names.setdefault("args", PySeq([]))
     names.setdefault("kwargs", {})
+    for k_, v_ in (consts or {}).items():
+        names.setdefault(k_, v_)
     live = {k_: v_ for k_, v_ in attrs.items()}
     try:
-        env = run_fragment(body, names, live, materialise=True, max_steps=200000, attrs_live=True)
+        env = run_fragment(body, names, live, materialise=True, max_steps=max_steps, attrs_live=True, funcs=funcs)
     except FragReturn as ret:
         env = getattr(ret, "env", {})
     except (Unfoldable, FragRaise, TypeError, ValueError, IndexError):
@@ -575,6 +577,46 @@ def rule_normalise(repo: Repo, rep: Report) -> int:
     for file, cname, var in ((f"{MD}/qam.py", "QAMModulator", "constellation"), (f"{MD}/pam.py", "PAMModulator", "levels")):
         fi = repo.func(file, f"{cname}._create_constellation")
         blocks = [s for s in stmts_of(fi.body) if isinstance(s, ast.If) and unparse(s.test) == "self.normalize"]
+        # first choice, independent of how the locals are called: the REGISTERED point table, from running the constructor
+        # with normalize set, has unit average energy for every order (and is not rescaled when normalize is off)
+        ci_ = repo.cls(file, cname)
+        reg_verdict = None
+        try:
+            for M in ((2, 4, 8, 16, 32, 64) if var == "levels" else (4, 16, 64)):
+                b_ = M.bit_length() - 1
+                for gray_ in (True, False):
+                    at_ = {"self.order": M, "self._bits_per_symbol": b_, "self.gray_coding": gray_, "self.normalize": True, "self._k": int(round(M**0.5))}
+                    consts_ = {}
+                    for st_ in fi.module.tree.body:
+                        if isinstance(st_, ast.Assign) and len(st_.targets) == 1 and isinstance(st_.targets[0], ast.Name):
+                            try:
+                                consts_[st_.targets[0].id] = Folder({}, {}).fold(st_.value)
+                            except Unfoldable:
+                                pass
+                    funcs_ = {nm_: f_.node for nm_, f_ in repo.module(UT).functions.items()}
+                    funcs_.update({nm_: f_.node for nm_, f_ in fi.module.functions.items()})
+                    bufs_ = run_buffers(fi, {}, at_, funcs=funcs_, consts=consts_, max_steps=900000)
+                    tab_ = bufs_.get("constellation")
+                    if not (isinstance(tab_, list) and len(tab_) == M and all(isinstance(z, (int, float, complex)) for z in tab_)):
+                        raise Unfoldable("registered table not produced")
+                    e_ = sum(abs(z) ** 2 for z in tab_) / len(tab_)
+                    if abs(e_ - 1.0) > 1e-9:
+                        reg_verdict = f"{cname}(order={M}, gray_coding={gray_}, normalize=True): the registered constellation has average energy {e_:.6g} instead of 1"
+                        break
+                if reg_verdict:
+                    break
+            else:
+                reg_verdict = "ok"
+        except (Unfoldable, AnalysisError, TypeError, ValueError, IndexError, KeyError, RecursionError):
+            reg_verdict = None
+        if reg_verdict == "ok":
+            rep.ok("NORMALISE", fi, f"{cname}: registered constellation evaluated with normalize=True for every order and both labelings", "unit average energy", node=fi.node)
+            n += 1
+            continue
+        if reg_verdict is not None:
+            rep.violation("NORMALISE", fi, f"{cname}: registered constellation evaluated with normalize=True", reg_verdict, node=fi.node)
+            n += 1
+            continue
         ok = False
         detail = "no `if self.normalize:` block"
         if len(blocks) == 1 and blocks[0] in fi.body:
